@@ -242,9 +242,15 @@ func c01Constraints(c *Ctx) {
 			return derivesFrom(v, sliceThrough, func(x ssa.Value) bool { return x == par[name] })
 		}
 	}
+	isPar := func(n string) func(ssa.Value) bool { return func(v ssa.Value) bool { return v == par[n] } }
 	c.requireGuards("C01.constraints", fn, sinks, "nil-return",
-		gBool("!notAfter.After(signer.NotAfter())", false, -1, callTo(Ref{"time", "Time", "After"}).withArg(0, func(v ssa.Value) bool { return v == par["notAfter"] }).withArg(1, signerAcc("NotAfter"))),
-		gBool("!notBefore.Before(signer.NotBefore())", false, -1, callTo(Ref{"time", "Time", "Before"}).withArg(0, func(v ssa.Value) bool { return v == par["notBefore"] }).withArg(1, signerAcc("NotBefore"))),
+		// a.After(b) and b.Before(a) are the same test
+		gAny("!notAfter.After(signer.NotAfter())",
+			gBool("!notAfter.After(signer.NotAfter())", false, -1, callTo(Ref{"time", "Time", "After"}).withArg(0, isPar("notAfter")).withArg(1, signerAcc("NotAfter"))),
+			gBool("!signer.NotAfter().Before(notAfter)", false, -1, callTo(Ref{"time", "Time", "Before"}).withArg(0, signerAcc("NotAfter")).withArg(1, isPar("notAfter")))),
+		gAny("!notBefore.Before(signer.NotBefore())",
+			gBool("!notBefore.Before(signer.NotBefore())", false, -1, callTo(Ref{"time", "Time", "Before"}).withArg(0, isPar("notBefore")).withArg(1, signerAcc("NotBefore"))),
+			gBool("!signer.NotBefore().After(notBefore)", false, -1, callTo(Ref{"time", "Time", "After"}).withArg(0, signerAcc("NotBefore")).withArg(1, isPar("notBefore")))),
 	)
 	// groups: for-all
 	for _, li := range findRangeLoops(fn, func(v ssa.Value) bool { return v == par["groups"] }) {
@@ -303,6 +309,40 @@ func c01Constraints(c *Ctx) {
 			flagPhi = phi
 			return true, !cd.Neg
 		}}
+		// the inner exists-loop may live in a helper: `contained(signerList, certNet)` whose every true return is reached only
+		// after an element of the list passed both containment tests (summary checked on the helper itself)
+		helperCall := Guard{Name: "found", Match: func(cd Cond, _ *ssa.If) (bool, bool) {
+			if cd.Kind != CondBool {
+				return false, false
+			}
+			call, _ := callOf(cd.Base)
+			if call == nil {
+				return false, false
+			}
+			h := call.Call.StaticCallee()
+			if h == nil || !c01ContainmentHelper(c, h) {
+				return false, false
+			}
+			a := callArgs(call)
+			okArgs := false
+			for i := range a {
+				for j := range a {
+					if i != j && fromSigner(fam.acc)(a[i]) && fromParam(fam.param)(a[j]) {
+						okArgs = true
+					}
+				}
+			}
+			if !okArgs {
+				return false, false
+			}
+			return true, !cd.Neg
+		}}
+		if n, _ := passEdgesCount(fn, helperCall); n > 0 {
+			c.forAllGuard("C01.constraints", fam.param+"-subset", fn, li, sinks, helperCall)
+			c.OK("C01.constraints", fam.param+":found=true", "containment decided by a helper whose true returns pass Contains and Bits")
+			c01LoopEntered(c, fn, fam.param, par[fam.param], fromSigner(fam.acc), sinks)
+			continue
+		}
 		c.forAllGuard("C01.constraints", fam.param+"-subset", fn, li, sinks, flag)
 		if flagPhi != nil {
 			n := 0
@@ -466,3 +506,63 @@ func c01Writers(c *Ctx) {
 }
 
 var _ = types.Typ
+
+
+func passEdgesCount(fn *ssa.Function, g Guard) (int, map[Edge]bool) {
+	e, n := passEdges(fn, g)
+	return n, e
+}
+
+// c01ContainmentHelper: h(list []netip.Prefix, sub netip.Prefix) bool (parameters in either order) returns true only after some
+// element a of list satisfied a.Contains(sub.Addr()) and a.Bits() <= sub.Bits().
+func c01ContainmentHelper(c *Ctx, h *ssa.Function) bool {
+	if h.Blocks == nil || len(h.Params) != 2 || h.Signature.Results().Len() != 1 {
+		return false
+	}
+	var list, sub *ssa.Parameter
+	for _, p := range h.Params {
+		if _, ok := p.Type().Underlying().(*typesSlice); ok {
+			list = p
+		} else {
+			sub = p
+		}
+	}
+	if list == nil || sub == nil {
+		return false
+	}
+	fromList := func(v ssa.Value) bool {
+		return derivesFrom(v, sliceLocal, func(x ssa.Value) bool { return x == ssa.Value(list) })
+	}
+	fromSub := func(v ssa.Value) bool {
+		return derivesFrom(v, sliceThrough, func(x ssa.Value) bool { return x == ssa.Value(sub) })
+	}
+	contains := gBool("a.Contains(sub.Addr())", true, -1, callTo(Ref{"net/netip", "Prefix", "Contains"}).withArg(0, fromList).withArg(1, fromSub))
+	bitsOf := func(from func(ssa.Value) bool) func(ssa.Value) bool {
+		return func(v ssa.Value) bool {
+			call, _ := callOf(v)
+			return call != nil && matchFunc(calleeObj(call), Ref{"net/netip", "Prefix", "Bits"}) && from(callArgs(call)[0])
+		}
+	}
+	bits := gCmp("a.Bits() <= sub.Bits()", bitsOf(fromList), bitsOf(fromSub), func(op tokenT) (bool, bool) {
+		switch op {
+		case tokLEQ:
+			return true, true
+		case tokGTR:
+			return true, false
+		}
+		return false, false
+	})
+	sinks := boolReturns(h, 0, true)
+	if len(sinks) == 0 {
+		return false
+	}
+	for _, s := range sinks {
+		for _, g := range []Guard{contains, bits} {
+			if ok, n, _ := c.mustPass(h, s, g); !ok || n == 0 {
+				return false
+			}
+		}
+	}
+	c.Funcs[h.String()] = true
+	return true
+}
